@@ -19,7 +19,7 @@ func init() {
 		ID:    "C04",
 		Level: "model_checking",
 		Rule: "12 chain contexts ({.,@,$} x {plain,&,~,=}) x 3 call forms (property, literal, variable) x receivers (arrays of n<=4 (thorough 5) tagged elements, each in {value,nil-result,raise,nil element}, with r/comb either props of the elements' prototype or answered by its _missing (n<=3, thorough 4), and with the chain written on one line or on a new line (multi-line spelling, n<=2, thorough 3); scalar receivers; " +
-			"int/str/range/obj/map/iterator receivers with 3 callee variants) x chain argument {absent, [], {}, %{}} / initial accumulator {absent, given}; result and call trace compared with a chain model; every pair of list chains ((context, form) x (context, form)) digesting 1-2 results into the same array variable of length 0..8, all three values read afterwards; " +
+			"int/str/range/obj/map/iterator receivers with 3 callee variants) x chain argument {absent, [], {}, %{}} / initial accumulator {absent, given}; result and call trace compared with a chain model; every receiver kind reused by five chains in a row (iterators are copied, not advanced); every pair of list chains ((context, form) x (context, form)) digesting 1-2 results into the same array variable of length 0..8, all three values read afterwards; " +
 			"non-trivial = at least one element whose result is nil or a raise, a nil element, or a chain argument; distinct = distinct source",
 		Assumptions: []string{
 			"don't-care: `~@` applied to a nil element (kept nil vs dropped) is not generated",
@@ -199,6 +199,9 @@ func (t tcase) src() string {
 	}
 	if t.Kind == "hist" {
 		return histSrc(t)
+	}
+	if t.Kind == "reuse" {
+		return "rv := " + t.Recv + "\ng := {|e| e}\n[rv" + t.Add + "@{|e| e}, rv@^g, rv" + t.Add2 + "@{|e| e}, rv$([]){|a, e| a + [e]}, rv" + t.Add + "@^g]"
 	}
 	parts := make([]string, len(t.Elems))
 	for i, e := range t.Elems {
@@ -491,10 +494,18 @@ func genRest(emit func(tcase)) {
 			}
 		}
 	}
+	// one receiver value reused by several chains (iterators are copied by a chain, never advanced)
+	for _, a1 := range []string{"", "=", "&"} {
+		for _, a2 := range []string{"", "=", "&"} {
+			for _, r := range otherRecvs {
+				emit(tcase{Kind: "reuse", Main: "@", Add: a1, Add2: a2, Recv: r.src})
+			}
+		}
+	}
 	// digest of the chain argument (list chains collecting pairs)
 	for _, add := range adds {
 		for _, f := range []string{"literal", "variable"} {
-			for _, arg := range []string{"{}", "%{}", "[]", "{z: 0}", "%{'z: 0}"} {
+			for _, arg := range []string{"{}", "%{}", "[]", "{z: 0}", "%{'z: 0}", "{a: 0}", "%{'a: 0}", "[0]", "{b: 7, a: 0}"} {
 				emit(tcase{Kind: "digest", Main: "@", Add: add, Form: f, Arg: arg})
 			}
 		}
@@ -517,12 +528,25 @@ func digestModel(t tcase) outcome {
 		return outcome{val: `%{"a": "a1", "b": "b1"}`}
 	case "[]":
 		return outcome{val: `[["a", "a1"], ["b", "b1"], ["a", "a1"]]`}
+	// a container that already holds entries keeps them: collected pairs are merged into it (first occurrence wins)
+	case "{z: 0}":
+		return outcome{val: `{"a": "a1", "b": "b1", "z": 0}`}
+	case "%{'z: 0}":
+		return outcome{val: `%{"a": "a1", "b": "b1", "z": 0}`}
+	case "{a: 0}":
+		return outcome{val: `{"a": 0, "b": "b1"}`}
+	case "%{'a: 0}":
+		return outcome{val: `%{"a": 0, "b": "b1"}`}
+	case "{b: 7, a: 0}":
+		return outcome{val: `{"a": 0, "b": 7}`}
+	case "[0]":
+		return outcome{val: `[0, ["a", "a1"], ["b", "b1"], ["a", "a1"]]`}
 	}
 	return outcome{val: "?"}
 }
 
 func nontrivial(t tcase) bool {
-	if t.Arg != "" || t.Kind == "other" || t.Kind == "digest" || t.Kind == "hist" {
+	if t.Arg != "" || t.Kind == "other" || t.Kind == "digest" || t.Kind == "hist" || t.Kind == "reuse" {
 		return true
 	}
 	for _, e := range t.Elems {
@@ -558,6 +582,8 @@ func keyOf(t tcase, want outcome, o panrun.Obs) string {
 		sub = "/digest"
 	case t.Kind == "hist":
 		sub = "/shared-chain-argument-history"
+	case t.Kind == "reuse":
+		sub = "/receiver-reused-by-later-chains"
 	case hasNilElem:
 		sub = "/nil-element"
 	case hasNilRes && hasRaise:
@@ -591,6 +617,11 @@ func judge(c *core.Ctx, t tcase, o panrun.Obs) {
 		want = otherModel(t)
 	case "hist":
 		want = histModel(t)
+	case "reuse":
+		// the same receiver value serves five chains one after the other: each sees all its elements
+		r := otherRecvs[recvIndex(t.Recv)]
+		l := "[" + strings.Join(r.elems, ", ") + "]"
+		want = outcome{val: "[" + strings.Join([]string{l, l, l, l, l}, ", ") + "]"}
 	case "digest":
 		want = digestModel(t)
 		if want.val == "?" {
@@ -606,7 +637,7 @@ func judge(c *core.Ctx, t tcase, o panrun.Obs) {
 	}
 	c.Outcome(t.Kind + ":" + o.Kind)
 	ok := true
-	if t.Kind != "other" && t.Kind != "digest" {
+	if t.Kind != "other" && t.Kind != "digest" && t.Kind != "reuse" {
 		ok = o.Out == want.out
 	}
 	if ok {
@@ -652,7 +683,7 @@ func groupKey(t tcase) string {
 }
 
 func crossForm(c *core.Ctx, t tcase, o panrun.Obs) {
-	if t.Kind == "digest" || t.Kind == "hist" || (t.Kind == "reduce" && t.Add == "&") {
+	if t.Kind == "digest" || t.Kind == "hist" || t.Kind == "reuse" || (t.Kind == "reduce" && t.Add == "&") {
 		return
 	}
 	k := groupKey(t)
